@@ -35,6 +35,9 @@ type Pipe struct {
 	closeCount  int
 	closed      bool
 	readsIssued int
+	active      int           // Write calls currently inside the transport
+	overlaps    int           // how often a Write began while another was still in progress
+	writeDelay  time.Duration // each Write stays inside the transport for this long
 }
 
 // NewPipe creates an open pipe.
@@ -103,7 +106,18 @@ func (p *Pipe) Read(b []byte) (int, error) {
 // Write implements io.Writer: one record per call; may park on the gate or fail as scripted.
 func (p *Pipe) Write(b []byte) (int, error) {
 	p.mu.Lock()
+	if p.active > 0 {
+		p.overlaps++
+	}
+	p.active++
+	delay := p.writeDelay
+	p.mu.Unlock()
+	if delay > 0 {
+		time.Sleep(delay) // a slow, byte-oriented transport: the call is in progress for a while
+	}
+	p.mu.Lock()
 	defer p.mu.Unlock()
+	defer func() { p.active-- }()
 	p.writeCalls++
 	call := p.writeCalls
 	for p.gateClosed && !p.closed {
@@ -240,3 +254,23 @@ func (p *Pipe) ReaderParked() bool {
 }
 
 var _ io.ReadWriteCloser = (*Pipe)(nil)
+
+// SetWriteDelay makes every Write call stay in progress for d.
+func (p *Pipe) SetWriteDelay(d time.Duration) {
+	p.mu.Lock()
+	p.writeDelay = d
+	p.mu.Unlock()
+}
+
+// Overlaps returns how often a Write call began while another Write on this transport was in progress
+// (a transport has a single writer at any time; anything else can interleave frames on a byte stream).
+func (p *Pipe) Overlaps() int {
+	p.mu.Lock()
+	defer p.mu.Unlock()
+	return p.overlaps
+}
+
+// WaitWriteCalls waits until at least n Write calls were issued (successful or not).
+func (p *Pipe) WaitWriteCalls(n int, timeout time.Duration) bool {
+	return p.waitFor(timeout, func() bool { return p.writeCalls >= n })
+}
